@@ -832,6 +832,16 @@ theorem flush_order :
     Restic.Gen.repoFlush_calls = ["r.flushBlobSaver", "r.flushPackUploader", "r.idx.Flush"] := by
   decide
 
+/-- `Packer.HeaderFull` (the test `hdrFull` of the model transcribes) asks whether ONE MORE entry still
+    fits: it takes the packer lock, and the only conversions / literals in its body are
+    `uint(len(p.blobs) + 1)` and `1`, i.e. the expression is
+    `headerSize + uint(len(p.blobs)+1)*entrySize > MaxHeaderSize` and not a comparison of the current
+    count with a limit. (The constants themselves are regenerated, `consts_ok`.) -/
+theorem headerFull_expr :
+    Restic.Gen.headerFull_callargs = ["p.m.Lock()", "p.m.Unlock()", "len(p.blobs)", "uint(len(p.blobs) + 1)"] ∧
+    Restic.Gen.headerFull_literals = ["1"] := by
+  decide
+
 /-- `saveAndEncrypt` dispatches on the blob type: tree blobs to `treePM`, data blobs to `dataPM`,
     anything else panics (`Sess.step`'s `.save`). -/
 theorem dispatch_cases : Restic.Gen.saveAndEncrypt_cases = ["restic.TreeBlob", "restic.DataBlob", "default"] := by
